@@ -44,6 +44,10 @@ theorem cache_no_lock_left_behind : cacheUnbalanced = [] := by decide
 /-- every use of the client's monitor table, its deferred-update state, `connected` and `activeEndpoint`
     is made under the mutex that guards the field, directly or because every caller in the package holds it -/
 theorem client_guarded_fields_under_mutex : clientUnguarded = [] := by decide
+/-- nowhere in the client or the server does a goroutine wait for other goroutines (a wait group) while it
+    holds a mutex they may need -/
+theorem client_waits_without_locks : clientWaitsHolding = [] := by decide
+theorem server_waits_without_locks : serverWaitsHolding = [] := by decide
 /-- every use of the server's monitor table is made under monitorMutex -/
 theorem server_guarded_fields_under_mutex : serverUnguarded = [] := by decide
 
